@@ -14,3 +14,6 @@ for id in "$@"; do
 done
 git -C /repo checkout -- .
 rm -rf /verif/failures
+# the binaries under /verif/target were built from the patched tree: rebuild them from the restored one so
+# that nobody runs a stale binary directly (./check itself always rebuilds)
+(cd /verif/harness && cargo build --bins > /dev/null 2>&1)
